@@ -146,6 +146,70 @@ def run(ctx, repo, tier):
             if any(is_self_attr(t, "grid_hash") for t in tgts):
                 hashes.append(node)
     ctx.instance("DOM", len(checks) + len(convs) + len(hashes))
+    # ---- what the check rejects: the predicate is evaluated on three sign profiles of the array (finite partition of the inputs)
+    PROFILES = {"non-negative (with a zero)": [0.0, 1.0, 2.5], "mixed signs": [-1.0, 0.0, 2.0], "all negative": [-1.0, -2.0]}
+    import operator as _op
+    CMP = {ast.Lt: _op.lt, ast.LtE: _op.le, ast.Gt: _op.gt, ast.GtE: _op.ge, ast.Eq: _op.eq, ast.NotEq: _op.ne}
+
+    def elems(e, vals):
+        """elementwise Boolean list of `self.trans_grid <op> c` (either side), else None"""
+        if isinstance(e, ast.Compare) and len(e.ops) == 1 and type(e.ops[0]) in CMP:
+            l, r = e.left, e.comparators[0]
+            if is_self_attr(l, "trans_grid") and isinstance(r, ast.Constant) and isinstance(r.value, (int, float)):
+                return [CMP[type(e.ops[0])](v, r.value) for v in vals]
+            if is_self_attr(r, "trans_grid") and isinstance(l, ast.Constant) and isinstance(l.value, (int, float)):
+                return [CMP[type(e.ops[0])](l.value, v) for v in vals]
+        return None
+
+    def truth(e, vals):
+        if isinstance(e, ast.UnaryOp) and isinstance(e.op, ast.Not):
+            t = truth(e.operand, vals)
+            return None if t is None else (not t)
+        if isinstance(e, ast.BoolOp):
+            ts = [truth(v, vals) for v in e.values]
+            if any(t is None for t in ts):
+                return None
+            return all(ts) if isinstance(e.op, ast.And) else any(ts)
+        if isinstance(e, ast.Call):
+            fn = src(e.func).split(".")[-1]
+            if fn in ("all", "any", "alltrue", "sometrue"):
+                arg = e.args[0] if e.args else (e.func.value if isinstance(e.func, ast.Attribute) else None)
+                el = elems(arg, vals) if arg is not None else None
+                if el is None:
+                    return None
+                return all(el) if fn in ("all", "alltrue") else any(el)
+        if isinstance(e, ast.Compare) and len(e.ops) == 1 and type(e.ops[0]) in CMP:
+            # min(x) < 0 , x.min() >= 0, max ...
+            def agg(x):
+                if isinstance(x, ast.Call):
+                    fn = src(x.func).split(".")[-1]
+                    tgt = x.args[0] if x.args else (x.func.value if isinstance(x.func, ast.Attribute) else None)
+                    if fn in ("min", "amin", "max", "amax") and tgt is not None and is_self_attr(tgt, "trans_grid"):
+                        return (min if fn in ("min", "amin") else max)(vals)
+                if isinstance(x, ast.Constant) and isinstance(x.value, (int, float)):
+                    return x.value
+                return None
+            a_, b_ = agg(e.left), agg(e.comparators[0])
+            if a_ is not None and b_ is not None:
+                return CMP[type(e.ops[0])](a_, b_)
+        return None
+    for node in checks:
+        s_ = node.stmt
+        verdicts = {}
+        for pname, vals in PROFILES.items():
+            t = truth(s_.test, vals)
+            verdicts[pname] = None if t is None else ((not t) if isinstance(s_, ast.Assert) else t)
+        ctx.instance("DOM")
+        if any(v is None for v in verdicts.values()):
+            ctx.inconclusive("DOM", "C16.nonneg.predicate", "the predicate of the non-negativity check is not of a recognised form", where,
+                             witness=src(s_.test)[:120])
+        elif verdicts["non-negative (with a zero)"] is False and verdicts["mixed signs"] is True and verdicts["all negative"] is True:
+            ctx.ok("DOM", "C16.nonneg.predicate", "the check rejects exactly the arrays that contain a negative distance (zero is allowed)", where,
+                   src(s_.test)[:120])
+        else:
+            wrong = [k for k, v in verdicts.items() if v != (k != "non-negative (with a zero)")]
+            ctx.violate("DOM", "C16.nonneg.predicate", "the non-negativity check does not reject exactly the arrays with a negative distance", where,
+                        src(s_.test)[:120], witness="; ".join(f"{k}: {'rejected' if verdicts[k] else 'accepted'}" for k in wrong))
     if not checks:
         ctx.violate("DOM", "C16.nonneg", "no non-negativity check of the distances in TranslationParser.__init__: negative "
                     "distances are accepted", where, "assert np.all(self.trans_grid >= 0)", witness="no assert / guarded raise on trans_grid found")
@@ -222,6 +286,33 @@ def run(ctx, repo, tier):
                         "self.trans_grid = ...", witness=vstr(tg)[:200])
         elif ok:
             ctx.ok("COEF", f"{tag}.exact", f"{name} branch: no rounding / quantisation between the parsed input and the converted grid", where)
+        # the identifier hashes the BYTES of the array: every path must produce float64 data, else "2" and "2.0" / "[2]" hash differently
+        def float_on_all_paths(t):
+            if isinstance(t, Term):
+                if t.op == "as_float":
+                    return True
+                if t.op in ("linspace", "arange", "array", "asarray", "full"):
+                    dt = t.kw.get("dtype")
+                    if isinstance(dt, ExtV) and dt.dotted in ("builtins.float", "numpy.float64", "numpy.double"):
+                        return True
+                    if t.op in ("array", "asarray") and t.args:
+                        return float_on_all_paths(t.args[0])
+                    return False
+                if t.op == "phi":
+                    alts = [a.items[1] if isinstance(a, TupleV) and len(a.items) == 2 else a for a in t.args]
+                    return all(float_on_all_paths(a) for a in alts)
+                if t.op in ("mult", "div", "add", "sub") and any(isinstance(a, Num) and a.p.is_const() and a.p.as_const().denominator != 1 for a in t.args):
+                    return True
+                if t.op == "div":
+                    return True
+                if t.args:
+                    return float_on_all_paths(t.args[0])
+            return False
+        ctx.instance("FLOW")
+        if ok:
+            ctx.check(float_on_all_paths(tg), "FLOW", f"{tag}.dtype", f"{name} branch: the values are converted to float on every path before they "
+                      "are hashed (the identifier depends on the array only, not on how a number was spelled)", where,
+                      "np.array(..., dtype=float)", witness=f"a path reaches the hash without a float conversion: {vstr(tg)[:200]}")
         # dispatch reaches the right constructor
         exp_op = {"literal": "literal_eval", "linspace": "linspace", "range": "arange"}[name]
         ctx.check(exp_op in inner_ops, "DISPATCH", f"{tag}.ctor", f"{name} branch builds the grid with {exp_op}", where,
